@@ -141,6 +141,75 @@ func RunReplay(f func()) (violated bool, what string) {
 	return false, ""
 }
 
+// SameExcept reports whether *a and *b (pointers to the same struct type) hold the same state:
+// all fields except the named top-level ones are compared cell by cell (slices by length and
+// contents, pointers by nil-ness and pointee contents).
+func SameExcept(a, b interface{}, skip ...string) bool {
+	va, vb := reflect.ValueOf(a), reflect.ValueOf(b)
+	if va.Kind() != reflect.Ptr || vb.Kind() != reflect.Ptr || va.Type() != vb.Type() {
+		panic("verifapi.SameExcept needs two pointers of the same type")
+	}
+	sk := map[string]bool{}
+	for _, s := range skip {
+		sk[s] = true
+	}
+	return sameState(va.Elem(), vb.Elem(), 0, sk)
+}
+
+func sameState(a, b reflect.Value, depth int, skip map[string]bool) bool {
+	if depth > 8 {
+		panic("verifapi.SameExcept: nesting too deep")
+	}
+	if a.CanAddr() && !a.CanSet() {
+		a = reflect.NewAt(a.Type(), unsafe.Pointer(a.UnsafeAddr())).Elem()
+	}
+	if b.CanAddr() && !b.CanSet() {
+		b = reflect.NewAt(b.Type(), unsafe.Pointer(b.UnsafeAddr())).Elem()
+	}
+	switch a.Kind() {
+	case reflect.Struct:
+		for i := 0; i < a.NumField(); i++ {
+			n := a.Type().Field(i).Name
+			if (depth == 0 && skip[n]) || n == "_" {
+				continue
+			}
+			if !sameState(a.Field(i), b.Field(i), depth+1, nil) {
+				return false
+			}
+		}
+		return true
+	case reflect.Array, reflect.Slice:
+		if a.Len() != b.Len() {
+			return false
+		}
+		for i := 0; i < a.Len(); i++ {
+			if !sameState(a.Index(i), b.Index(i), depth+1, nil) {
+				return false
+			}
+		}
+		return true
+	case reflect.Ptr:
+		if a.IsNil() != b.IsNil() {
+			return false
+		}
+		if a.IsNil() || a.Pointer() == b.Pointer() {
+			return true
+		}
+		return sameState(a.Elem(), b.Elem(), depth+1, nil)
+	case reflect.Bool:
+		return a.Bool() == b.Bool()
+	case reflect.Int, reflect.Int8, reflect.Int16, reflect.Int32, reflect.Int64:
+		return a.Int() == b.Int()
+	case reflect.Uint, reflect.Uint8, reflect.Uint16, reflect.Uint32, reflect.Uint64, reflect.Uintptr:
+		return a.Uint() == b.Uint()
+	case reflect.Float32, reflect.Float64:
+		return a.Float() == b.Float()
+	case reflect.String:
+		return a.String() == b.String()
+	}
+	panic("verifapi.SameExcept: unsupported field kind " + a.Kind().String())
+}
+
 // Havoc makes every integer/boolean cell reachable through ptr (struct fields, array elements,
 // elements of non-nil slices; unexported fields included) nondeterministic: the residue of ANY
 // earlier use of a pooled object. Natively the values come from the replay file (name "havoc").
